@@ -131,6 +131,7 @@ type LSPArray = Vec<LSPAny>;
 /// A selection range represents a part of a selection hierarchy. A selection range
 /// may have a parent selection range that contains it.
 #[derive(Serialize, Deserialize, PartialEq, Debug, Eq, Clone)]
+#[serde(rename_all = "camelCase")]
 pub struct SelectionRange {
     /// The [range][Range] of this selection range.
     pub range: Range,
